@@ -58,8 +58,7 @@ def make_provider(kind):
     if server is None:
         conf = srv.op_conf(jwt_access=kw["jwt_access"], authz=kw["authz"])
         if pin == "key":
-            key = base64.urlsafe_b64encode(b"0123456789abcdef0123456789abcdef").decode()
-            cc = {"kwargs": {"key": key}}
+            cc = {"kwargs": {"key": b"0123456789abcdef0123456789abcdef"}}
         else:
             cc = keyfile_crypt(os.path.join(srv.RUN, "c13_crypt_jwks.json"))
         conf["session_params"] = {"encrypter": copy.deepcopy(cc)}
@@ -105,15 +104,19 @@ class Prov:
         self.server = server or make_provider(kind)
         self.ctx = self.server.context
         self.tokens = []      # index -> token value (codes, access, refresh, id tokens), minting order
+        self.tclass = []      # index -> "code" | "access_token" | "refresh_token" | "id_token"
+        self.towner = []      # index -> client reference the token was issued to
         self.dyn = []         # index -> dict(client_id, client_secret, rat)
         self.par = []         # index -> request_uri
         self.nonce = 0
 
     def tables(self):
-        return {"tokens": list(self.tokens), "dyn": copy.deepcopy(self.dyn), "par": list(self.par), "nonce": self.nonce}
+        return {"tokens": list(self.tokens), "tclass": list(self.tclass), "towner": list(self.towner),
+                "dyn": copy.deepcopy(self.dyn), "par": list(self.par), "nonce": self.nonce}
 
     def set_tables(self, t):
         self.tokens, self.dyn, self.par, self.nonce = list(t["tokens"]), copy.deepcopy(t["dyn"]), list(t["par"]), t["nonce"]
+        self.tclass, self.towner = list(t["tclass"]), list(t["towner"])
 
     # ---- references
     def client(self, ref):
@@ -129,10 +132,12 @@ class Prov:
             return self.tokens[ref[1]] if ref[1] < len(self.tokens) else "missing"
         return ["", "garbage", "Zm9vYmFy", "a.b.c"][ref[1] % 4]
 
-    def note(self, val):
+    def note(self, val, cls="?", owner=None):
         if val in self.tokens:
             return self.tokens.index(val)
         self.tokens.append(val)
+        self.tclass.append(cls)
+        self.towner.append(owner)
         return len(self.tokens) - 1
 
     def redirect(self, cid):
@@ -161,7 +166,7 @@ class Prov:
         self.clock.tick(d)
         return ["ok"]
 
-    def _authz(self, req, user):
+    def _authz(self, req, user, cref=None):
         srv.set_user(self.server, user)
         ep = self.server.get_endpoint("authorization")
         p = ep.parse_request(req)
@@ -176,7 +181,7 @@ class Prov:
         out = {}
         for k in ("code", "access_token", "id_token"):
             if k in ra:
-                out[k] = self.note(ra[k])
+                out[k] = self.note(ra[k], k, cref)
                 if k == "id_token":
                     out["id_token_claims"] = jwt_claims(ra[k])
         out["scope"] = sorted(ra["scope"]) if "scope" in ra else None
@@ -189,7 +194,7 @@ class Prov:
                "scope": " ".join(scope), "state": "st%d" % self.nonce, "nonce": "nonce-%d" % self.nonce}
         if "offline_access" in scope:
             req["prompt"] = "consent"
-        return self._authz(req, user)
+        return self._authz(req, user, cref)
 
     def _client_auth(self, cref, req, jti=None):
         cid, sec = self.client(cref)
@@ -208,7 +213,7 @@ class Prov:
         req["client_assertion_type"] = "urn:ietf:params:oauth:client-assertion-type:jwt-bearer"
         return req
 
-    def _token(self, req):
+    def _token(self, req, cref=None):
         ep = self.server.get_endpoint("token")
         p = ep.parse_request(req)
         e = self.err(p)
@@ -222,7 +227,7 @@ class Prov:
         out = {}
         for k in ("access_token", "refresh_token", "id_token"):
             if k in ra:
-                out[k] = self.note(ra[k])
+                out[k] = self.note(ra[k], k, cref)
         if "id_token" in ra:
             out["id_token_claims"] = jwt_claims(ra["id_token"])
         if self.kind.get("jwt_access") and "access_token" in ra:
@@ -236,13 +241,13 @@ class Prov:
     def op_token(self, ref, cref, jti=None, owner=None):
         cid, _ = self.client(owner if owner is not None else cref)
         req = {"grant_type": "authorization_code", "code": self.tok(ref), "redirect_uri": self.redirect(cid)}
-        return self._token(self._client_auth(cref, req, jti))
+        return self._token(self._client_auth(cref, req, jti), cref)
 
     def op_refresh(self, ref, cref, scope=None, jti=None):
         req = {"grant_type": "refresh_token", "refresh_token": self.tok(ref)}
         if scope is not None:
             req["scope"] = " ".join(scope)
-        return self._token(self._client_auth(cref, req, jti))
+        return self._token(self._client_auth(cref, req, jti), cref)
 
     def _simple(self, epname, req, hdr=None):
         ep = self.server.get_endpoint(epname)
@@ -329,7 +334,7 @@ class Prov:
         req = {"client_id": cid, "redirect_uri": self.redirect(cid), "response_type": "code",
                "scope": " ".join(scope), "state": "as%d" % self.nonce, "nonce": "anonce-%d" % self.nonce,
                "request_uri": uri}
-        return self._authz(req, user)
+        return self._authz(req, user, cref)
 
     # ---- a state digest through the public API only (what the property calls "equivalent")
     def snapshot(self):
